@@ -753,7 +753,7 @@ def run_gauss(spec, ctx):
             mu_p, S_p = mu[p], S[np.ix_(p, p)]
             wK = np.linalg.inv(S_p)
             wh = wK @ mu_p
-            wg = -0.5 * float(mu_p @ wh) - 0.5 * (n * math.log(2 * math.pi) + np.linalg.slogdet(S_p)[1])
+            wg = float(-0.5 * float(mu_p @ wh) - 0.5 * (n * math.log(2 * math.pi) + np.linalg.slogdet(S_p)[1]))
             ks = float(np.abs(wK).max())
             ctx.expect(close(K, wK, rtol=1e-6, atol=1e-6 * ks), "c20:wrong-canonical-K",
                        f"K is {_r(K)}, Sigma^-1 is {_r(wK)}")
